@@ -349,7 +349,14 @@ def r5(ctx, rule="C03.R5"):
               ctx.construct(gd, text="drop field"), f"returns: {[norm(r_.value) for r_ in rets]}")
     gs = B.methods["get_spans_intercept"]
     rets = returns_of(gs.node)
-    ok = len(rets) == 1 and norm(rets[0].value) in ("len(levels) > 0 and (not reduced_rank)", "len(levels) > 0 and not reduced_rank")
+    from ..util import atom_mapper, predicate_table
+    # atoms: 0 = there is at least one level, 1 = the coding is the reduced one; the property wants exactly (some level, full coding)
+    am = atom_mapper({"len(levels) > 0": 0, "len(levels) != 0": 0, "len(levels) >= 1": 0, "0 < len(levels)": 0, "0 != len(levels)": 0,
+                      "1 <= len(levels)": 0, "len(levels)": 0, "levels": 0, "bool(levels)": 0, "bool(len(levels))": 0, "reduced_rank": 1})
+    try:
+        ok = predicate_table(gs.node, am, 2) == (False, False, True, False)
+    except sym.Unmodelled:
+        ok = False
     ctx.check(ok, rule, "a coding spans the intercept exactly when it is the full coding of at least one level", gs.where,
               ctx.construct(gs, text="spans intercept"), f"returns `{norm(rets[0].value) if rets else None}`")
 
